@@ -25,6 +25,8 @@ def gen_config(rng):
         'log': rng.random() < 0.3,
         'appending': rng.random() < 0.3,
         'dedup': rng.random() < 0.25,
+        # a second, non-appending run on the same prefix (only without size rollover): starts over
+        'rerun': rng.random() < 0.15,
         'extra_fields': rng.choice([None, None, [('operator', 'verif')],
                                     [('note', 'x' * 1500), ('sémantique', 'ünï: cödé'), ('a:b', 'c: d')],
                                     [('multi', 'line1\r\nline2')]]),
@@ -143,7 +145,8 @@ def run_case(case, keep_dir=None):
     try:
         seq = case['seq']
         rounds = [seq]
-        if cfg['appending'] and len(seq) > 1:
+        rerun = cfg.get('rerun') and not cfg['appending'] and not cfg['max_size'] and len(seq) > 1
+        if (cfg['appending'] or rerun) and len(seq) > 1:
             h = len(seq) // 2
             rounds = [seq[:h], seq[h:]]
         visits = StubVisits() if cfg['dedup'] else None
@@ -173,6 +176,9 @@ def run_case(case, keep_dir=None):
             if case.get('ftp') and rnd_index == len(rounds) - 1:
                 obs['ftp'] = run_ftp_sessions(recorder, case['ftp'])
             recorder.close()
+            if rerun and rnd_index == 0:
+                # everything this run wrote is replaced by the next (non-appending) run
+                continue
             for i, (r, resp) in enumerate(zip(rnd, responses)):
                 out = outcomes[i] if i < len(outcomes) else {'error': 'NOT-RUN'}
                 req_bytes = peer.requests[i][1] if i < len(peer.requests) else None
